@@ -925,7 +925,14 @@ func (x *seqRun) restart(i int) {
 		x.pending = false
 	}
 	simrt.WaitUntil("background shrinker to finish", func() bool { return x.rig.Srv.VerifShrinkerThreads() == 0 })
-	simrt.Quiesce()
+	if (x.spec.Seed+uint64(i))%2 == 0 {
+		// half of the restarts wait until logger and installer are idle; the others
+		// happen with committed transactions still only in the log (everything
+		// acknowledged is durable there, so the restarted server must not differ)
+		simrt.Quiesce()
+	} else {
+		x.res.count("restarts_with_uninstalled_log", 1)
+	}
 	before := rawSnapshot(x.rig, x.m)
 	// (b) recovery from the image at this instant, in the same simulation
 	if x.spec.knob("image_restart", 0) != 0 {
